@@ -389,3 +389,41 @@ func AddSpare(m any, extra int) {
 	}
 	walk(reflect.ValueOf(m))
 }
+
+// AliasParts makes the real message m share element objects the way a hand-built message may: in every struct
+// reachable from m, every slice of pointers gets all its elements set to ONE pointer (its first element, or - when the
+// same struct has a non-nil pointer field of the element type - that field's object).
+func AliasParts(m any) {
+	var walk func(v reflect.Value)
+	walk = func(v reflect.Value) {
+		switch v.Kind() {
+		case reflect.Ptr, reflect.Interface:
+			if !v.IsNil() {
+				walk(v.Elem())
+			}
+		case reflect.Struct:
+			for i := 0; i < v.NumField(); i++ {
+				f := v.Field(i)
+				if f.Kind() == reflect.Slice && f.Type().Elem().Kind() == reflect.Ptr && f.Len() > 0 && f.CanSet() {
+					shared := f.Index(0)
+					for j := 0; j < v.NumField(); j++ {
+						if g := v.Field(j); g.Kind() == reflect.Ptr && g.Type() == f.Type().Elem() && !g.IsNil() {
+							shared = g
+						}
+					}
+					for k := 0; k < f.Len(); k++ {
+						f.Index(k).Set(shared)
+					}
+				}
+			}
+			for i := 0; i < v.NumField(); i++ {
+				walk(v.Field(i))
+			}
+		case reflect.Slice:
+			for i := 0; i < v.Len() && i < 1; i++ {
+				walk(v.Index(i))
+			}
+		}
+	}
+	walk(reflect.ValueOf(m))
+}
